@@ -15,26 +15,27 @@ import (
 )
 
 type Result struct {
-	Oblig     string    `json:"obligation"`
-	Props     []string  `json:"props"`
-	Status    string    `json:"status"` // proved | refuted | unknown | undecided | stale
-	Reason    string    `json:"reason,omitempty"`
-	Solver    string    `json:"solver,omitempty"`
-	Millis    int64     `json:"solver_ms"`
-	ExecMs    int64     `json:"vcgen_ms"`
-	Paths     int       `json:"paths"`
-	FailPaths []string  `json:"failing_paths,omitempty"`
-	Query     string    `json:"query_file,omitempty"`
-	Model     string    `json:"-"`
-	Funcs     []string  `json:"-"`
-	Trusted   []string  `json:"-"`
-	Kind      string    `json:"kind"`
-	Vacuity   bool      `json:"vacuity,omitempty"`
-	Bounded   bool      `json:"bounded,omitempty"`
-	Location  string    `json:"contract"`
-	Witness   []witness `json:"-"` // skolem constants of a top-level universal clause (replay)
-	Thorough  bool      `json:"-"` // item of the thorough tier
-	BudgetMs  int64     `json:"-"` // solver budget of this obligation (item option timeout=<seconds>); 0 = default
+	Oblig        string    `json:"obligation"`
+	Props        []string  `json:"props"`
+	Status       string    `json:"status"` // proved | refuted | unknown | undecided | stale
+	Reason       string    `json:"reason,omitempty"`
+	Solver       string    `json:"solver,omitempty"`
+	Millis       int64     `json:"solver_ms"`
+	ExecMs       int64     `json:"vcgen_ms"`
+	Paths        int       `json:"paths"`
+	FailPaths    []string  `json:"failing_paths,omitempty"`
+	Query        string    `json:"query_file,omitempty"`
+	Model        string    `json:"-"`
+	Funcs        []string  `json:"-"`
+	Trusted      []string  `json:"-"`
+	Kind         string    `json:"kind"`
+	Vacuity      bool      `json:"vacuity,omitempty"`
+	Bounded      bool      `json:"bounded,omitempty"`
+	Location     string    `json:"contract"`
+	Witness      []witness `json:"-"` // skolem constants of a top-level universal clause (replay)
+	Thorough     bool      `json:"-"` // item of the thorough tier
+	BudgetMs     int64     `json:"-"` // solver budget of this obligation (item option timeout=<seconds>); 0 = default
+	LockBudgetMs int64     `json:"-"` // item option lockbudget=<seconds>: bound under which the obligation may enter the lock file
 }
 
 // partSlots bounds the number of per-goal solver runs in flight (across all harnesses).
@@ -213,6 +214,9 @@ func RunHarness(p *Program, h *Harness, cfg runCfg) (res *Result) {
 	}
 	q := c.Query(nil, negGoals, labels)
 	if h.Item != nil {
+		if t, err := strconv.Atoi(h.Item.Options["lockbudget"]); err == nil && t > 0 {
+			res.LockBudgetMs = int64(t) * 1000
+		}
 		if t, err := strconv.Atoi(h.Item.Options["timeout"]); err == nil && t > 0 {
 			// the contract author declared this item slow: its own solver budget (quick and thorough)
 			if d := time.Duration(t) * time.Second; d > cfg.timeout {
